@@ -29,6 +29,24 @@ Proof.
   intros H. unfold upd. destruct (Nat.eqb t n) eqn:E; auto. apply Nat.eqb_eq in E. subst. apply in_or_app. auto.
 Qed.
 
+Lemma nodup_map_inj {A} (f : A -> nat) (l : list A) a b : NoDup (map f l) -> In a l -> In b l -> f a = f b -> a = b.
+Proof.
+  induction l as [|x l IH]; cbn; [tauto|]. intros Nd Ha Hb E. inversion Nd as [|? ? Hn Hd]; subst.
+  destruct Ha as [->|Ha], Hb as [->|Hb]; auto.
+  - exfalso. apply Hn. rewrite E. apply in_map, Hb.
+  - exfalso. apply Hn. rewrite <- E. apply in_map, Ha.
+Qed.
+
+Lemma nodup_app_r {A} (l1 l2 : list A) : NoDup (l1 ++ l2) -> NoDup l2.
+Proof. induction l1 as [|a l1 IH]; cbn; auto. intros H. inversion H; subst. auto. Qed.
+
+Lemma nodup_app_both {A} (l1 l2 : list A) x : NoDup (l1 ++ l2) -> In x l1 -> In x l2 -> False.
+Proof.
+  induction l1 as [|a l1 IH]; cbn; [tauto|]. intros Nd [->|H1] H2; inversion Nd as [|? ? Hn Hd]; subst.
+  - apply Hn. apply in_or_app. auto.
+  - apply IH; auto.
+Qed.
+
 Lemma nodup_snoc_nat (l : list nat) x : NoDup l -> ~ In x l -> NoDup (l ++ [x]).
 Proof.
   induction l as [|a l IH]; cbn; intros H Hn; [constructor; auto; constructor|].
@@ -180,7 +198,10 @@ Record Inv (st : net) : Prop := mkInv {
   i_ans : ans_ok (n_der st) (n_ans st);
   i_ansdone : forall id, In id (map fst (n_ans st)) <-> exists n, In id (n_done st n);
   i_disj : forall n m id, In id (n_arr st n) -> In id (n_arr st m) -> n = m;
-  i_ansnd : NoDup (map fst (n_ans st))
+  i_ansnd : NoDup (map fst (n_ans st));
+  i_der : forall id own kids, In (id, own, kids) (n_der st) ->
+          (exists n r, In r (n_q st n) /\ q_id r = id /\ q_st r <> None) \/ (exists n, In id (n_done st n));
+  i_dernd : NoDup (map (fun d => fst (fst d)) (n_der st))
 }.
 
 Lemma inv0 : Inv net0.
@@ -188,6 +209,7 @@ Proof.
   constructor; cbn; auto; try tauto; try constructor; try (intros; tauto).
   intros [n []].
 Qed.
+(* inv0 proved *)
 
 (* ---- lemmas about start ---- *)
 Lemma start_spec own ids l rid l' :
@@ -298,11 +320,17 @@ Proof.
   - apply Nat.eqb_neq in E. intros H. exists rw. auto.
 Qed.
 
+Lemma fill_st_some rq p a c : q_st c <> None -> q_st (fill rq p a c) <> None.
+Proof.
+  intros H. unfold fill. destruct (Nat.eqb (q_id c) rq); auto. destruct (q_st c) as [[o w]|] eqn:S; [discriminate|].
+  rewrite S. exact H.
+Qed.
+
 (* ---- the invariant is kept by every step ---- *)
 Lemma step_in st n st' : Inv st -> step st (LIn n) = Some st' -> Inv st'.
 Proof.
   intros I H. cbn [step] in H. destruct (Nat.ltb n N) eqn:L; [|discriminate]. injection H as <-. apply Nat.ltb_lt in L.
-  destruct I as [Ia If In_ Ib Ik Ir Ians Iad Idj Ind]. constructor; cbn.
+  destruct I as [Ia If In_ Ib Ik Ir Ians Iad Idj Ind Ide Idn]. constructor; cbn.
   - intros m. unfold upd. destruct (Nat.eqb m n) eqn:E; auto. apply Nat.eqb_eq in E. subst m.
     rewrite Ia, map_app, app_assoc. reflexivity.
   - intros m id. unfold upd. destruct (Nat.eqb m n); intros Hin.
@@ -333,6 +361,9 @@ Proof.
     + apply If in Ox. lia.
     + apply If in Oy. lia.
   - exact Ind.
+  - intros id own kids Hd. destruct (Ide id own kids Hd) as [[m [r [Hr [Hi Hs]]]]|[m Hm]]; [left|right; eauto].
+    exists m, r. split; auto. apply in_upd_app, Hr.
+  - exact Idn.
 Qed.
 
 (* ---- answering ---- *)
@@ -355,7 +386,7 @@ Lemma answer_inv st n r rest a :
   Inv st -> n_q st n = r :: rest -> justified (n_der st) (n_ans st) (q_id r) a -> Inv (answer st n r rest a).
 Proof.
   intros I Q J. unfold answer.
-  destruct I as [Ia If In_ Ib Ik Ir Ians Iad Idj Ind].
+  destruct I as [Ia If In_ Ib Ik Ir Ians Iad Idj Ind Ide Idn].
   set (q1 := upd (n_q st) n rest).
   set (q' := match q_from r with Some (m, rq) => upd q1 m (map (fill rq (q_id r) a) (q1 m)) | None => q1 end).
   assert (Q1 : forall x c, In c (n_q st x) -> (x = n /\ c = r) \/ In c (q1 x)).
@@ -378,6 +409,11 @@ Proof.
   { intros x c0 Hc0. unfold q'. destruct (q_from r) as [[m rq]|]; [|eauto]. unfold upd at 1.
     destruct (Nat.eqb x m) eqn:E; [|eauto]. apply Nat.eqb_eq in E. subst m.
     exists (fill rq (q_id r) a c0). split; [apply in_map, Hc0|]. split; [apply fill_id|apply fill_from]. }
+  assert (QND : forall x, NoDup (map q_id (n_q st x))).
+  { intros x. pose proof (In_ x) as Nd. rewrite Ia in Nd. apply nodup_app_r in Nd. exact Nd. }
+  assert (STK : forall x c1 c2, In c1 (q1 x) -> In c2 (q1 x) -> q_id c1 = q_id c2 -> q_st c2 <> None -> q_st c1 <> None).
+  { intros x c1 c2 H1 H2 E Hs. assert (c1 = c2); [|subst; exact Hs].
+    apply (nodup_map_inj q_id (n_q st x)); auto. }
   constructor; cbn [n_q n_next n_arr n_done n_ans n_der n_out]; fold q1; fold q'.
   - intros x. rewrite F1. unfold q1, upd. destruct (Nat.eqb x n) eqn:E.
     + apply Nat.eqb_eq in E. subst x. rewrite Ia, Q. cbn. rewrite <- app_assoc. reflexivity.
@@ -426,6 +462,19 @@ Proof.
     assert (m = n) by (eapply Idj; eauto). subst m.
     pose proof (In_ n) as Nd. rewrite Ia, Q in Nd. cbn [map] in Nd.
     apply NoDup_remove_2 in Nd. apply Nd. apply in_or_app. auto.
+  - intros id own kids Hd. destruct (Ide id own kids Hd) as [[m [c [Hc [Hi Hs]]]]|[m Hm]].
+    + destruct (Q1 m c Hc) as [[-> ->]|Hin].
+      * right. exists n. rewrite upd_same. apply in_or_app. right. left. exact Hi.
+      * left. destruct (F3 m c Hin) as [c3 [G1 [G2 G3]]].
+        assert (G4 : q_st c3 <> None).
+        { destruct (F2 m c3 G1) as [[_ Hc1]|[rq [c0 [_ [Hc0 ->]]]]].
+          - (* unchanged element with the same id: it is c, or carries a row as well *)
+            exact (STK m c3 c Hc1 Hin G2 Hs).
+          - rewrite fill_id in G2. pose proof (STK m c0 c Hc0 Hin G2 Hs) as K.
+            apply fill_st_some, K. }
+        exists m, c3. split; auto. split; auto. congruence.
+    + right. exists m. unfold upd. destruct (Nat.eqb m n) eqn:E; auto. apply Nat.eqb_eq in E. subst m. apply in_or_app. auto.
+  - exact Idn.
 Qed.
 
 Lemma step_ans st n st' : Inv st -> step st (LAns n) = Some st' -> Inv st'.
@@ -451,7 +500,7 @@ Proof.
 Qed.
 
 Lemma step_close st n st' : Inv st -> step st (LClose n) = Some st' -> Inv st'.
-Proof. intros [Ia If In_ Ib Ik Ir Ians Iad Idj Ind] H. cbn [step] in H. injection H as <-. constructor; auto. Qed.
+Proof. intros [Ia If In_ Ib Ik Ir Ians Iad Idj Ind Ide Idn] H. cbn [step] in H. injection H as <-. constructor; auto. Qed.
 
 (* ---- finishing an action ---- *)
 Lemma nodup_app_disj (l1 l2 : list nat) : NoDup l1 -> NoDup l2 -> (forall x, In x l1 -> ~ In x l2) -> NoDup (l1 ++ l2).
@@ -481,7 +530,7 @@ Proof.
   destruct (forallb _ tgts) eqn:TG; [|discriminate].
   set (ids := seq (n_next st) (length tgts)) in *.
   destruct (start own ids (n_q st n)) as [[rid qn]|] eqn:ST; [|discriminate]. injection H as <-.
-  destruct I as [Ia If In_ Ib Ik Ir Ians Iad Idj Ind].
+  destruct I as [Ia If In_ Ib Ik Ir Ians Iad Idj Ind Ide Idn].
   destruct (start_spec _ _ _ _ _ ST) as [pre [r [post [Q [S [Rid Qn]]]]]].
   set (r' := mkreq (q_id r) (q_from r) (Some (own, fresh_row ids))) in *.
   set (tis := combine tgts ids).
@@ -494,11 +543,11 @@ Proof.
   assert (Qn_ids : map q_id qn = map q_id (n_q st n)).
   { rewrite Qn, Q, !map_app. reflexivity. }
   (* old requests survive with id and origin *)
-  assert (OLD : forall t c, In c (n_q st t) -> exists c', In c' (fst acc t) /\ q_id c' = q_id c /\ q_from c' = q_from c).
+  assert (OLD : forall t c, In c (n_q st t) -> exists c', In c' (fst acc t) /\ q_id c' = q_id c /\ q_from c' = q_from c /\ (q_st c <> None -> q_st c' <> None)).
   { intros t c Hc. destruct (SS t) as [A _]. rewrite A. unfold upd. destruct (Nat.eqb t n) eqn:E.
     - apply Nat.eqb_eq in E. subst t. rewrite Q in Hc. apply in_app_or in Hc as [Hc|[<-|Hc]].
       + exists c. split; auto. apply in_or_app. left. rewrite Qn. apply in_or_app. auto.
-      + exists r'. split; auto. apply in_or_app. left. rewrite Qn. apply in_or_app. right. left. reflexivity.
+      + exists r'. split; [|split; [reflexivity|split; [reflexivity|intros _; discriminate]]]. apply in_or_app. left. rewrite Qn. apply in_or_app. right. left. reflexivity.
       + exists c. split; auto. apply in_or_app. left. rewrite Qn. apply in_or_app. right. right. exact Hc.
     - exists c. split; auto. apply in_or_app. auto. }
   (* a request with a row after the step is an old one, or the one just finished *)
@@ -529,7 +578,7 @@ Proof.
     rewrite E1, E2. reflexivity.
   - intros x c own' rw' p Hc Hs Hp. destruct (NEW x c own' rw' Hc Hs) as [Hold|[-> ->]].
     + destruct (Ik x c own' rw' p Hold Hs Hp) as [t [c2 [A [B [Cc D]]]]].
-      destruct (OLD t c2 B) as [c3 [G1 [G2 G3]]]. exists t, c3. repeat split; auto; congruence.
+      destruct (OLD t c2 B) as [c3 [G1 [G2 [G3 _]]]]. exists t, c3. repeat split; auto; congruence.
     + cbn in Hs. injection Hs as <- <-. apply fresh_row_in in Hp as [_ Hp].
       destruct (kids_sent tgts (n_next st) p Hp) as [t Ht]. fold ids in Ht. fold tis in Ht.
       exists t, (mkreq p (Some (n, rid)) None). split; [apply (TI t p Ht)|]. split; [|split; auto].
@@ -550,6 +599,23 @@ Proof.
     + apply If in Hy. apply sent_to_in, TI in Hx. lia.
     + apply sent_to_in in Hx. apply sent_to_in in Hy. eapply combine_seq_fun; eauto.
   - exact Ind.
+  - intros id own0 kids [E|Hd].
+    + injection E as <- _ _. left. exists n, r'. split; [|split; [exact Rid|discriminate]].
+      destruct (SS n) as [A _]. rewrite A, upd_same, Qn. apply in_or_app. left. apply in_or_app. right. left. reflexivity.
+    + destruct (Ide id own0 kids Hd) as [[m [c [Hc [Hi Hs]]]]|[m Hm]]; [left|right; eauto].
+      destruct (OLD m c Hc) as [c3 [G1 [G2 [_ G4]]]]. exists m, c3. split; auto. split; [congruence|auto].
+  - cbn [map fst]. constructor; auto. intros Hin. apply in_map_iff in Hin as [[[i o] k] [E Hd]]. cbn in E. subst i.
+    assert (Hr : In r (n_q st n)) by (rewrite Q; apply in_or_app; right; left; reflexivity).
+    assert (An : In rid (n_arr st n)) by (rewrite Ia; apply in_or_app; right; rewrite <- Rid; apply in_map, Hr).
+    destruct (Ide rid o k Hd) as [[m [c [Hc [Hi Hs]]]]|[m Hm]].
+    + assert (Am : In rid (n_arr st m)) by (rewrite Ia; apply in_or_app; right; rewrite <- Hi; apply in_map, Hc).
+      assert (m = n) by (eapply Idj; eauto). subst m.
+      assert (c = r); [|subst c; congruence].
+      pose proof (In_ n) as Nd. rewrite Ia in Nd. apply nodup_app_r in Nd.
+      apply (nodup_map_inj q_id (n_q st n)); auto. congruence.
+    + assert (Am : In rid (n_arr st m)) by (rewrite Ia; apply in_or_app; auto).
+      assert (m = n) by (eapply Idj; eauto). subst m.
+      pose proof (In_ n) as Nd. rewrite Ia in Nd. apply (nodup_app_both _ _ rid Nd Hm). rewrite <- Rid. apply in_map, Hr.
 Qed.
 
 (* ---- every reachable state ---- *)
@@ -570,7 +636,7 @@ Qed.
 Theorem answered_once_in_order ls n :
   let st := run ls in
   n_arr st n = n_done st n ++ map q_id (n_q st n) /\ NoDup (n_arr st n).
-Proof. destruct (run_inv ls) as [Ia _ In_ _ _ _ _ _ _ _]. split; auto. Qed.
+Proof. destruct (run_inv ls) as [Ia _ In_ _ _ _ _ _ _ _ _ _]. split; auto. Qed.
 
 (* every answer is its node's own result (nothing derived), or the join of answers given earlier to
    the packets derived from the request *)
@@ -743,5 +809,9 @@ Proof.
   cbv zeta. destruct (teardown_releases_all (run ls) (run_inv ls)) as [A B]. split; [apply (i_ansnd _ A)|].
   intros n id Hid. apply (i_ansdone _ A). exists n. destruct (B n) as [_ [E _]]. rewrite E. exact Hid.
 Qed.
+
+(* a request's action finishes once: one derivation record per request *)
+Theorem derivations_functional ls : NoDup (map (fun d => fst (fst d)) (n_der (run ls))).
+Proof. apply (i_dernd _ (run_inv ls)). Qed.
 
 End Net.
